@@ -655,7 +655,8 @@ def extract(spec, table, cls_names, flag_names):
 
 def path_name(path):
     """registry id, or for anonymous objects the path from the registry: 'tree/_internal_heights'"""
-    return "/".join([path[0]] + [str(k) if kind != "target" else f"[{k}]" for kind, k in path[1:]])
+    return "/".join([path[0]] + [str(k) if kind not in ("target", "listener") else
+                                 (f"[{k}]" if kind == "target" else f"listener[{k}]") for kind, k in path[1:]])
 
 
 def locate(o, dic, names):
@@ -682,7 +683,17 @@ def locate(o, dic, names):
             q.append((cur._parameter_container, path + [("attr", "_parameter_container")]))
         for j, t in enumerate(targets_of(cur)):
             q.append((t, path + [("target", j)]))
+        for j, t in enumerate(_listeners_any(cur)):
+            q.append((t, path + [("listener", j)]))
     raise ExtractError(f"cannot locate {type(o).__name__} from the registry")
+
+
+def _listeners_any(o):
+    for a in ("listeners", "_listeners"):
+        v = o.__dict__.get(a) if hasattr(o, "__dict__") else None
+        if isinstance(v, list):
+            return v
+    return []
 
 
 def resolve(path, dic):
@@ -692,6 +703,8 @@ def resolve(path, dic):
             cur = getattr(cur, kind)[k]
         elif kind == "attr":
             cur = getattr(cur, k)
+        elif kind == "listener":
+            cur = _listeners_any(cur)[k]
         else:
             cur = targets_of(cur)[k]
     return cur
@@ -791,7 +804,14 @@ def root_cause(W, p, n):
                 if ("HSet", W.flag_names[fl]) not in h:
                     return f"{cy}.{hname(e)}:ignores", m, path[i - 1]
             return f"{cy}:flag-{W.flag_names[fl]}-not-set", m, path[i - 1]
-        # y never notified: who on the path before it was notified last?
+        # y never notified: a notified object it listens to that swallows the event ?
+        for q in sorted(received):
+            if y in W.listeners[q]:
+                for e in sorted(received[q]):
+                    h = W.table[W.obj_class[q]]["hp" if e == "EvP" else "hm"]
+                    if not any(s[0] == "HFire" for s in h):
+                        return f"{short(W.obj_class[q])}.{hname(e)}:does-not-propagate", m, path[i - 1]
+        # otherwise: who on the path before it was notified last?
         z = W.slot_owner[path[i - 1]]
         cz = short(W.obj_class[z])
         if z in received or z == p:
@@ -1155,6 +1175,57 @@ def runtime_crosscheck(table):
     return bad, n
 
 
+def handler_crosscheck(W):
+    """Call the real handlers of every object of the instance (scratch copy) and compare what they do
+    with the translated table: flags set, which fire_* reaches a probe listener, AttributeError."""
+    from torchtree.core.parametric import ModelListener, ParameterListener
+    bad, n = [], 0
+    real = Real(W)
+    for i, o in enumerate(real.objs):
+        ent = W.table[W.obj_class[i]]
+        for key, hn in (("hp", "handle_parameter_changed"), ("hm", "handle_model_changed")):
+            prog = ent[key]
+            if any(s[0] == "HOpaque" for s in prog) or ent[key + "_owner"] == "missing":
+                continue
+            if not hasattr(o, hn):
+                continue
+            hits = []
+
+            class Probe(ModelListener, ParameterListener):
+                def handle_model_changed(self, model, obj, index):
+                    hits.append("EvM")
+
+                def handle_parameter_changed(self, variable, index, event):
+                    hits.append("EvP")
+            lst = getattr(o, ent["listeners_attr"]) if ent["listeners_attr"] else None
+            probe = Probe()
+            if lst is not None:
+                lst.append(probe)
+            sets = [s[1] for s in prog if s[0] == "HSet"]
+            watched = sorted(set(sets) | set(ent["flags"]))
+            for f in watched:
+                if hasattr(o, f):
+                    object.__setattr__(o, f, False)
+            raised = None
+            try:
+                getattr(o, hn)(None, None, None)
+            except AttributeError as e:
+                raised = str(e)
+            finally:
+                if lst is not None:
+                    del lst[next(k for k, x in enumerate(lst) if x is probe)]   # (parameters overload ==)
+            n += 1
+            exp_raise = any(s[0] == "HRaise" for s in prog)
+            cut = next((k for k, s in enumerate(prog) if s[0] == "HRaise"), len(prog))
+            exp_hits = [s[1] for s in prog[:cut] if s[0] == "HFire"]
+            exp_sets = {s[1] for s in prog[:cut] if s[0] == "HSet"}
+            got_sets = {f for f in watched if hasattr(o, f) and getattr(o, f) is True}
+            if bool(raised) != exp_raise or hits != exp_hits or got_sets != exp_sets:
+                bad.append(f"{W.obj_class[i]}.{hn}: table {prog} but the call "
+                           f"{'raises ' + raised if raised else 'sets ' + str(sorted(got_sets)) + ' fires ' + str(hits)}")
+    return bad, n
+
+
 def decode_diag(W, z):
     """M_listen.diag output -> list of dicts"""
     out, i = [], 0
@@ -1303,6 +1374,35 @@ def last_update_before(ops, j):
     return None
 
 
+def setter_defect(W, i, depth=0):
+    """The class whose `tensor` setter fails to change / notify, walking from object i through its
+    targets.  -> key suffix | None"""
+    ent = W.table[W.obj_class[i]]
+    st = [x[0] for x in (ent["setter"] or [])]
+    c = short(W.obj_class[i])
+    k = W.obj_kind[i]
+    if k == "KLeaf":
+        if "SBump" not in st:
+            return f"{c}.tensor.setter:does-not-assign"
+        if "SFireSelf" not in st[st.index("SBump"):]:
+            return f"{c}.tensor.setter:does-not-notify"
+        return None
+    if k == "KView":
+        if "SInplaceT" not in st:
+            return f"{c}.tensor.setter:does-not-assign"
+        if "SFireT" not in st[st.index("SInplaceT"):]:
+            return f"{c}.tensor.setter:does-not-notify"
+        return None
+    if k in ("KCat", "KTrans"):
+        if "SAssignT" not in st:
+            return f"{c}.tensor.setter:does-not-assign"
+        for t in W.targets[i]:
+            d = setter_defect(W, t, depth + 1) if depth < 20 else None
+            if d:
+                return d
+    return None
+
+
 def attribute(W, ops, recs, j, kind):
     """Stable key + one-line description for a problem observed on the implementation."""
     if kind == "raise":
@@ -1332,6 +1432,14 @@ def attribute(W, ops, recs, j, kind):
         tgt = ops[i].get("x", ops[i]["obj"]) if ops[i]["op"] == "sample" else ops[i]["obj"]
         if ops[i]["op"] != "fire":
             changed += [l for l in under(tgt) if l not in changed]
+    for i in range(j - 1, -1, -1):
+        if ops[i]["op"] in ("set", "propose", "reject", "sample"):
+            tgt = ops[i].get("x", ops[i]["obj"]) if ops[i]["op"] == "sample" else ops[i]["obj"]
+            d = setter_defect(W, tgt)
+            if d:
+                return (f"C11:{d}",
+                        f"{slot_label(W, k)} is stale after '{W.obj_names[tgt]}' was assigned [{d}] "
+                        f"(got {recs[j]['detail']['got']}, freshly built copy {recs[j]['detail']['fresh']})")
     rs = reads_set(W, k)
     for l in changed:
         pslot = next(s for s in range(len(W.slots)) if W.slot_owner[s] == l and W.slot_name[s] == "leaf")
@@ -1403,14 +1511,14 @@ def compare(W, ops, recs, mrecs):
             return j, f"implementation {a['kind']} vs model {b['kind']}"
         if a["kind"] == "raise":
             return None
+        if a["kind"] == "eval" and a.get("exc"):
+            return None          # the evaluation itself raises on the implementation: nothing to compare after it
         if a["flags"] != list(b["flags"]):
             cached = [k for k in range(len(W.slots)) if W.slot_flag[k] is not None]
             diff = [slot_label(W, cached[i]) + f"(impl {x}, model {y})"
                     for i, (x, y) in enumerate(zip(a["flags"], b["flags"])) if x != y]
             return j, "dirty flags differ: " + ", ".join(diff[:4])
         if a["kind"] == "eval":
-            if a.get("exc"):
-                continue
             if a["calls"] != b["calls"]:
                 return j, (f"re-executed _call set differs: impl {[W.obj_names[i] for i in a['calls']]} "
                            f"model {[W.obj_names[i] for i in b['calls']]}")
@@ -1419,6 +1527,74 @@ def compare(W, ops, recs, mrecs):
     if len(recs) != len(mrecs):
         return min(len(recs), len(mrecs)), "histories stop at different operations"
     return None
+
+
+def blind_search(seed):
+    """Used when the translator refuses the source: the property on the implementation without any
+    wiring knowledge.  For every instance and every registered leaf: evaluate every callable model and
+    every parameter of the registry, assign the leaf, evaluate again, compare with a freshly built copy."""
+    torch = impl.load()
+    from torchtree.core.abstractparameter import AbstractParameter
+    from torchtree.core.model import CallableModel
+    rng = random.Random(seed)
+    found = {}
+
+    def observe(dic):
+        out = {}
+        for k, v in dic.items():
+            try:
+                with torch.no_grad():
+                    if isinstance(v, CallableModel):
+                        out[k] = ("val", [v().detach().clone()])
+                    elif isinstance(v, AbstractParameter):
+                        out[k] = ("val", [v.tensor.detach().clone()])
+            except Exception as e:
+                out[k] = ("exc", type(e).__name__, str(e)[:100])
+        return out
+
+    for f in SPECS:
+        sp = f()
+        try:
+            base = build(sp)
+        except Exception as e:
+            found.setdefault(f"C11:blind:build:{sp['name']}", (f"C11:blind:build:{sp['name']}",
+                             f"instance {sp['name']} cannot be built: {e}", dict(spec=sp["name"])))
+            continue
+        doms = leaf_domains(sp["objects"])
+        for leaf in sorted(k for k, v in base.items() if kind_of(v) == "KLeaf"):
+            dic = build(sp)
+            observe(dic)
+            cur = dic[leaf].tensor
+            if not cur.dtype.is_floating_point or doms.get(leaf) in (HEIGHTS, GRID, "root", "origin", "spd"):
+                new = cur * 1.5 if cur.dtype.is_floating_point else cur + 1
+            elif doms.get(leaf) in (SIMPLEX, "kf"):
+                new = cur.flip(-1) * 0.5 + cur * 0.5 if doms.get(leaf) == SIMPLEX else cur
+                new = new / new.sum(-1, keepdim=True) if doms.get(leaf) == SIMPLEX else cur * 1.0
+                if doms.get(leaf) == SIMPLEX and torch.allclose(new, cur):
+                    w = torch.arange(1, cur.shape[-1] + 1, dtype=cur.dtype)
+                    new = w / w.sum()
+            elif doms.get(leaf) == UNIT:
+                new = cur * 0.5 + 0.1
+            else:
+                new = cur * 1.3 + 0.05
+            try:
+                dic[leaf].tensor = new.clone()
+            except Exception as e:
+                key = f"C11:blind:update-raises:{type(e).__name__}:{sp['name']}"
+                found.setdefault(key, (key, f"{sp['name']}: assigning '{leaf}' raises {type(e).__name__}: {e}",
+                                       dict(spec=sp["name"], blind=True, leaf=leaf, value=new.tolist())))
+                continue
+            got = observe(dic)
+            vals = {k: dic[k].tensor.detach().tolist() for k, v in dic.items() if kind_of(v) == "KLeaf"}
+            ref = observe(build(sp, vals))
+            for k in got:
+                if k in ref and not same_value(got[k], ref[k], torch):
+                    key = f"C11:blind:stale:{type(dic[k]).__name__}"
+                    found.setdefault(key, (key, f"{sp['name']}: {k} ({type(dic[k]).__name__}) is stale after "
+                                                f"'{leaf}' was assigned: got {_show(got[k], ref[k])}, freshly built copy "
+                                                f"{_show(ref[k], got[k])}",
+                                           dict(spec=sp["name"], blind=True, leaf=leaf, value=new.tolist(), observed=k)))
+    return list(found.values())
 
 
 def run(tier, seed, replay=None):
@@ -1470,7 +1646,7 @@ def run(tier, seed, replay=None):
         found = {}
         runs = []
         r2 = random.Random(seed + 1)
-        nrand, ln = (8, 40) if tier == "quick" else (40, 400)
+        nrand, ln = (20, 40) if tier == "quick" else (40, 400)
         for gi, (W, real) in enumerate(zip(Ws, reals)):
             hs = one_step_histories(W, r2, real)
             hs += [gen_history(W, r2, r2.randint(max(4, ln // 4), ln), real) for _ in range(nrand)]
@@ -1492,8 +1668,13 @@ def run(tier, seed, replay=None):
         return run_replay(rep, Ws, replay)
 
     if not ok_sync:
+        C.log(f"[{PID}] {info}")
         rep.proof = dict(obligations=1, discharged=0, axioms={}, theorems=["T7 translation"], ok=False)
-        rep.violation("C11:translator-failed", info, dict(error=info), False)
+        fs = blind_search(seed)
+        for f in fs:
+            rep.violation(*f)
+        if not fs:
+            rep.violation("C11:translator-failed", info, dict(error=info), False)
         return rep.finish()
     proved = C.handle_proof(rep, PID, search)
     for name, e in errors:
@@ -1503,6 +1684,15 @@ def run(tier, seed, replay=None):
     bad, nrt = runtime_crosscheck(table)
     for b in bad[:3]:
         rep.violation("C11:translator-runtime-mismatch", b, dict(error=bad), False)
+    nhc = 0
+    for W in Ws:
+        try:
+            bad, k = handler_crosscheck(W)
+        except Exception as e:
+            bad, k = [f"{W.spec['name']}: handler cross-check failed: {type(e).__name__}: {e}"], 0
+        nhc += k
+        for b in bad[:3]:
+            rep.violation("C11:translator-handler-mismatch:" + b.split(":")[1].split(" ")[0], b, dict(error=bad), False)
 
     # ------------------------------------------------------------------ wired, by vm_compute
     t0 = time.time()
@@ -1534,6 +1724,10 @@ def run(tier, seed, replay=None):
                 e = "EvP" if any(s[0] == "HRaise" for s in ent["hp"]) else "EvM"
                 offenders.append((W, "raise", f"{short(W.obj_class[d['who']])}.{hname(e)}:raises", d["obj"], None, None))
                 culprits.add(short(W.obj_class[d["who"]]))
+            elif d["kind"] in ("plan-leaves", "plan-not-notified"):
+                key = setter_defect(W, d["obj"]) or f"{short(W.obj_class[d['obj']])}.tensor.setter:{d['kind']}"
+                offenders.append((W, "setter", key, d["obj"], None, None))
+                culprits.add(key.split(".")[0])
             else:
                 rep.violation(f"C11:wiring:{d['kind']}:{W.spec['name']}", f"{W.spec['name']}: {d}",
                               dict(spec=W.spec["name"], diag=d), False)
@@ -1548,6 +1742,26 @@ def run(tier, seed, replay=None):
         if full in reproduced:
             continue
         real = reals[Ws.index(W)]
+        if kind == "setter":
+            ups, under = updatable(W)
+            if leaf not in ups:
+                continue
+            lslots = {s_ for s_ in range(len(W.slots)) if W.slot_name[s_] == "leaf" and W.slot_owner[s_] in under(leaf)}
+            cands = [k_ for k_ in range(len(W.slots)) if W.slot_flag[k_] is not None and W.observable[k_]
+                     and k_ not in W.unevaluable and lslots & reads_set(W, k_)]
+            done = False
+            for k_ in cands[:4]:
+                ops = [dict(op="eval", slot=k_), dict(op="set", obj=leaf, value=value_for(W, real, leaf, rng)),
+                       dict(op="eval", slot=k_)]
+                recs = run_history(W, ops)
+                if len(recs) == 3 and recs[2]["kind"] == "eval" and recs[2]["stale"]:
+                    _, what = attribute(W, ops, recs, 2, "stale")
+                    reproduced[full] = (full, what, replay_dict(W, ops))
+                    done = True
+                    break
+            if not done:
+                unreproduced.append((full, W.spec["name"], "no stale value observed after the assignment"))
+            continue
         if W.obj_names[leaf] not in W.leaf_ids:
             continue                       # anonymous constant, not reachable through the registry
         upd = dict(op="set", obj=leaf, value=value_for(W, real, leaf, rng))
@@ -1661,6 +1875,10 @@ def run(tier, seed, replay=None):
                                           detail=text), False)
 
     classes = sorted({short(q) for W in Ws for q in W.obj_class})
+    rep.exhaustive = dict(
+        what="per instance graph every updatable parameter object (every kind) x {assignment, in-place change + "
+             "notification} x every evaluable slot: history [evaluate all; update; evaluate all]",
+        one_step_histories=sum(len(one_step_histories(W, random.Random(0), r)) for W, r in zip(Ws, reals)))
     rep.rule = ("per instance graph: for every updatable parameter object (plain, view, concatenation, transformed) "
                 "and mode (assignment, in-place + notification) the history [evaluate every slot; update; evaluate "
                 f"every slot], plus random histories of length <= {ln} mixing assignment through every parameter "
@@ -1673,7 +1891,7 @@ def run(tier, seed, replay=None):
         model_pessimistic_evaluations=pess, stale_evaluations_on_impl=nstale, raising_updates_on_impl=nraise,
         translator_units=[f"{len(table)} classes -> gen/G_handlers.v (handlers, tensor setters, cache flags, "
                           "listener attribute, fire_* loops)"],
-        runtime_crosschecked_classes=nrt,
+        runtime_crosschecked_classes=nrt, handlers_called_and_compared_with_table=nhc,
         instances={W.spec["name"]: dict(objects=len(W.obj_ids), slots=len(W.slots),
                                         cached=sum(1 for f in W.slot_flag if f is not None),
                                         wired=wired_by_spec.get(W.spec["name"]),
@@ -1692,6 +1910,11 @@ def run(tier, seed, replay=None):
 def run_replay(rep, Ws, path):
     blob = json.load(open(path))
     r = blob["replay"]
+    if r.get("blind"):
+        fs = [f for f in blind_search(rep.seed) if f[0] == blob["key"]]
+        for f in fs:
+            rep.violation(*f)
+        return rep.finish()
     W = next((w for w in Ws if w.spec["name"] == r.get("spec")), None)
     if W is None or "history" not in r:
         C.log(f"[{PID}] replay file has no executable history: {r}")
